@@ -135,6 +135,12 @@ pub fn compare(case: &Case, e: &ScEval, detail: &mut serde_json::Value) -> Optio
         may.push("injected");
         must = true;
     }
+    // `yield_now` tells loom that the thread cannot make progress until another thread has run:
+    // the reference treats it as a no-op, so with yields only the "may" direction is demanded
+    let has_yield = p.has(|o| matches!(o, Op::Yield));
+    if has_yield {
+        must = false;
+    }
     *detail = serde_json::json!({
         "SC": set_str(&sc.outcomes), "L": set_str(&e.l),
         "reference": {"deadlock": sc.deadlock, "leaks": format!("{:?}", sc.leaks), "race_must": sc.race_max, "race_may": sc.race_min,
@@ -184,7 +190,7 @@ pub fn compare(case: &Case, e: &ScEval, detail: &mut serde_json::Value) -> Optio
             ));
         }
     }
-    if e.panic.is_none() {
+    if e.panic.is_none() && !has_yield {
         let missing: Vec<&Outcome> = sc.outcomes.iter().filter(|x| !e.l.contains(*x)).collect();
         if let Some(m) = missing.first() {
             detail["missing"] = serde_json::json!(missing.iter().take(20).map(|o| fmt_outcome(o)).collect::<Vec<_>>());
@@ -323,7 +329,8 @@ pub fn build(prop: &str, draws: &[u16], tier: Tier) -> Case {
             8 => ("mixed2", gen::sync_prog(&mut s, &SyncParams { rwlock: true, condvar: true, atomics: true, max_threads: 2, max_ops: 7 + extra, ..sp() })),
             _ => ("try-ops", gen::sync_prog(&mut s, &SyncParams { mutex: true, try_lock: true, rwlock: true, try_rw: true, channel: true, try_recv: true, max_threads: 2, max_ops: 6 + extra, ..sp() })),
         },
-        "C05" => match s.pick(7) {
+        "C05" => match s.pick(8) {
+            7 => ("yield", gen::sync_prog(&mut s, &SyncParams { park: true, mutex: true, channel: true, yields: true, ordered_locks: true, max_threads: 2, max_ops: 6 + extra, joins: true, ..sp() })),
             6 => ("unpark-any", gen::sync_prog(&mut s, &SyncParams { park: true, mutex: true, unpark_any: true, ordered_locks: true, max_threads: 3, max_ops: 6 + extra, joins: true, ..sp() })),
             0 => ("lock-order", gen::sync_prog(&mut s, &SyncParams { mutex: true, ordered_locks: false, max_threads: 3, max_ops: 7 + extra, ..sp() })),
             1 => ("lock-order-ok", gen::sync_prog(&mut s, &SyncParams { mutex: true, rwlock: true, ordered_locks: true, max_threads: 3, max_ops: 7 + extra, ..sp() })),
@@ -332,14 +339,16 @@ pub fn build(prop: &str, draws: &[u16], tier: Tier) -> Case {
             4 => ("park", gen::sync_prog(&mut s, &SyncParams { park: true, notify: true, max_threads: 3, max_ops: 6 + extra, joins: true, child_joins: true, ..sp() })),
             _ => ("mixed", gen::sync_prog(&mut s, &SyncParams { mutex: true, rwlock: true, channel: true, park: true, max_threads: 3, max_ops: 7 + extra, joins: true, ..sp() })),
         },
-        "C07" => match s.pick(5) {
+        "C07" => match s.pick(6) {
             0 => ("mutex", gen::sync_prog(&mut s, &SyncParams { mutex: true, ordered_locks: true, cells: true, max_threads: 3, max_ops: 7 + extra, late_spawn: true, ..sp() })),
             1 => ("rwlock", gen::sync_prog(&mut s, &SyncParams { rwlock: true, cells: true, max_threads: 3, max_ops: 7 + extra, ..sp() })),
             2 => ("mutex+rwlock", gen::sync_prog(&mut s, &SyncParams { mutex: true, rwlock: true, ordered_locks: true, max_threads: 3, max_ops: 7 + extra, joins: true, ..sp() })),
             3 => ("try", gen::sync_prog(&mut s, &SyncParams { mutex: true, try_lock: true, rwlock: true, try_rw: true, ordered_locks: true, max_threads: 2, max_ops: 6 + extra, ..sp() })),
+            5 => ("try+atomics", gen::sync_prog(&mut s, &SyncParams { mutex: true, try_lock: true, rwlock: true, try_rw: true, atomics: true, ordered_locks: true, max_threads: 2, max_ops: 7 + extra, ..sp() })),
             _ => ("handover", gen::lock_handover(&mut s)),
         },
-        "C08" => match s.pick(7) {
+        "C08" => match s.pick(8) {
+            7 => ("yield", gen::sync_prog(&mut s, &SyncParams { park: true, condvar: true, notify: true, yields: true, max_threads: 2, max_ops: 6 + extra, joins: true, ..sp() })),
             6 => ("unpark-any", gen::sync_prog(&mut s, &SyncParams { park: true, condvar: true, unpark_any: true, max_threads: 3, max_ops: 6 + extra, joins: true, ..sp() })),
             0 | 1 => ("condvar", gen::sync_prog(&mut s, &SyncParams { condvar: true, cells: true, max_threads: 3, max_ops: 7 + extra, ..sp() })),
             2 => ("notify", gen::sync_prog(&mut s, &SyncParams { notify: true, cells: true, max_threads: 2, max_ops: 6 + extra, joins: true, ..sp() })),
